@@ -434,7 +434,7 @@ func init() {
 	AddOp("c23_pulse", (*Sim).opC23Pulse)
 	simrt.Register("C23", &simrt.PropSpec{Fn: runC23, NonTrivial: c23NonTrivial,
 		Rule: "real dual-staking delegations driven through chain histories under the simulated block clock: series of delegate/unbond on one (delegator, provider) pair with tape-chosen gaps (10 min, 59/61 min, hours, days, 29 d, 30 d -1h/0/+1h, 36 d; long gaps are made of slow blocks), mixed with redelegations, staking-module operations, stake changes and validator slashes. A harness ledger of (block time, amount) per pair is fed by reading the delegation records back after every transaction and block. Oracle on CalculateMonthlyCredit at the current block time and (on a context whose block time is advanced, the record unchanged) at +30 min, +1 h, +1 d, +7 d, around 30 days after the last change, +30 d, +45 d: 0 <= credit <= largest ledger amount in effect during the 30 days before the evaluation time (closed interval); no change of the record for >= 30 days => credit == amount; for a delegation with no larger amount in the last 30 days the credit is non-decreasing over the later evaluation times. The ledger also keeps every moment a record was seen changed; a violation of the upper bound is signed according to where the ledger shows the larger, given-up amount: held during or after the latest period of >= 30 days without any change of the record (the listed echo of CalculateCredit), or only before such a period / before a removal of the record (by the statement a delegation left unchanged for >= 30 days has credit == amount whatever happened earlier, so nothing older may weigh on later credits). Non-trivial = >=4 accepted delegation changes, a pair with >=3 ledger changes and an evaluation >= 30 days after the last change",
-		Real:    chainReal, Stubbed: chainStub,
+		Real: chainReal, Stubbed: chainStub,
 		Assume: append(append([]string{}, chainAssume...), "the empty-provider placeholder records are not evaluated (no rewards are computed from them)", "'unchanged' means: neither the amount nor the Timestamp of the delegation record changed, as read back from the keeper")})
 	_ = sdk.ZeroInt
 }
